@@ -78,8 +78,28 @@ func (l *lateRun) separated(name string) app.Scope {
 	})
 }
 
+// failSandbox is a sandbox added through the sandboxes manager whose Run reports its failure
+// only through the returned error (as the ssh and container sandboxes do).
+type failSandbox struct{ l *lateRun }
+
+func (f failSandbox) Run(ctx app.IOContext) error {
+	f.l.log("failsb-run")
+	return fmt.Errorf("exit status 1")
+}
+
+type failSandboxBuilder struct{ l *lateRun }
+
+func (f failSandboxBuilder) Is(name string) bool { return name == "c14fail" }
+func (f failSandboxBuilder) Build(name string) (pipservices.Sandbox, error) {
+	return failSandbox{f.l}, nil
+}
+
 func runLate(c *sup.Child, b sup.Batch) {
 	for idx := b.From; idx < b.To; idx++ {
+		if idx%3 == 2 {
+			runSandboxFail(c, idx)
+			continue
+		}
 		rng := c.Rand(idx)
 		l := &lateRun{gate: make(chan struct{}), lateFails: rng.Intn(2) == 0, work: 1 + rng.Intn(40)}
 		desc := map[string]any{"kind": "late", "late_task_fails": l.lateFails, "work_rounds": l.work}
@@ -190,4 +210,101 @@ func runLate(c *sup.Child, b sup.Batch) {
 			}
 		})
 	}
+}
+
+// runSandboxFail: a prerequisite that runs in a sandbox whose failure is only the return value of
+// Sandbox.Run. It finished with an error: its dependant must never run and must end failed, and
+// TasksManager.Wait must report an error.
+func runSandboxFail(c *sup.Child, idx int) {
+	rng := c.Rand(idx)
+	separated := rng.Intn(2) == 0
+	l := &lateRun{gate: make(chan struct{})}
+	c.Case(idx, map[string]any{"kind": "sandbox-fail", "separated_contexts": separated}, func(r *sup.CaseResult) {
+		var err error
+		if l.mapp, err = goatapp.NewMockupApp(goatapp.Params{}); err != nil {
+			r.Inconclusive = err.Error()
+			return
+		}
+		bs := bootstrap.NewBootstrap(l.mapp)
+		if err = goaterr.ToError(goaterr.AppendError(nil, bs.Register(terminalm.NewModule()), bs.Register(commonm.NewModule()),
+			bs.Register(ocm.NewModule()), bs.Register(pipelinem.NewModule()))); err == nil {
+			err = bs.Init()
+		}
+		if err != nil {
+			r.Inconclusive = "application stack: " + err.Error()
+			return
+		}
+		var ranDependant atomic.Int64
+		l.mapp.Terminal().SetCommand(terminal.NewCommand(terminal.CommandParams{Name: "ldep", Callback: func(app.App, app.IOContext) error {
+			ranDependant.Add(1)
+			l.log("dependant-body-ran")
+			return nil
+		}}))
+		var deps struct {
+			Runner    pipservices.Runner           `dependency:"PipRunner"`
+			Tasks     pipservices.TasksUnit        `dependency:"PipTasksUnit"`
+			Sandboxes pipservices.SandboxesManager `dependency:"PipSandboxesManager"`
+		}
+		if err = l.mapp.DependencyProvider().InjectTo(&deps); err != nil {
+			r.Inconclusive = err.Error()
+			return
+		}
+		deps.Sandboxes.Add(failSandboxBuilder{l})
+		l.runner = deps.Runner
+		l.root = scope.New(scope.Params{Name: "c14sbfail"})
+		mgr, err := deps.Tasks.FromScope(l.root)
+		if err != nil {
+			r.Inconclusive = err.Error()
+			return
+		}
+		scp := func(name string) app.Scope {
+			if separated {
+				return l.separated(name)
+			}
+			return l.root
+		}
+		p1 := l.pip(scp("s1"), "t1", "ignored\n")
+		p1.Sandbox = "c14fail"
+		if err = l.runner.Run(p1); err != nil {
+			r.Inconclusive = "submission of t1 refused: " + err.Error()
+			return
+		}
+		p2 := l.pip(scp("s2"), "t2", "ldep\n")
+		p2.Wait = []string{"t1"}
+		err2 := l.runner.Run(p2)
+		done := make(chan error, 1)
+		go func() { done <- mgr.Wait() }()
+		var waitErr error
+		select {
+		case waitErr = <-done:
+		case <-time.After(30 * time.Second):
+			r.Inconclusive = "sandbox-fail: TasksManager.Wait() did not return within the watchdog"
+			return
+		}
+		l.mu.Lock()
+		evs := append([]string{}, l.events...)
+		l.mu.Unlock()
+		wit := map[string]any{"events": evs, "separated_contexts": separated}
+		t1, _ := mgr.Get("t1")
+		if t1 != nil && len(t1.Errors()) == 0 {
+			r.Violate("failed-task-has-no-error", "task t1 ran in a sandbox whose Run returned 'exit status 1', yet it finished with Errors() empty", wit)
+		}
+		if err2 == nil {
+			if ranDependant.Load() > 0 {
+				r.Violate("ran-after-failed-prerequisite", "the body of t2 (wait list [t1]) was executed although t1 failed in its sandbox", wit)
+			}
+			if t2, ok := mgr.Get("t2"); ok && len(t2.Errors()) == 0 {
+				r.Violate("skipped-task-not-failed", "t2 waits for the failed t1 and ended with Errors() empty", wit)
+			}
+		} else {
+			r.AddObs("dependant_refused_in_shared_scope", 1)
+		}
+		if waitErr == nil {
+			r.Violate("manager-wait-error-mismatch", "TasksManager.Wait() = nil although task t1 failed in its sandbox", wit)
+		}
+		r.AddObs("sandbox_fail_programs", 1)
+		r.AddObs("events", int64(len(evs)))
+		r.Key = fmt.Sprintf("sbfail|%v|%d", separated, idx)
+		r.Nontrivial = true
+	})
 }
